@@ -404,7 +404,6 @@ package http2
 //@ ensures decval: d < 2097152 ==> spec.intVal(r0[last:], bits) == index
 //@ ensures short: len(r0) - last <= 11
 
-
 //@ macro hpackOK(hp) = hp != nil && forall(i, 0, len(hp.dynamic), hp.dynamic[i] != nil)
 
 //@ func (*HPACK).peek
@@ -919,3 +918,74 @@ package http2
 //@ ensures priook: k == 2 && (s0 == 0 || old(strm.headersFinished)) && as(fr.fr, *Priority).stream != strm.id ==> r0 == nil
 //@ # invariants handed back to the loop
 //@ ensures winv: sc.currentWindow >= sc.maxWindow / 2 && sc.currentWindow <= sc.maxWindow && hpackOK(sc.dec)
+
+// ---- sending the response body within the peer's windows (RFC 7540 6.9) ----
+
+//@ # a usable connection object: the logger is set, and the debug log also names the peer
+//@ macro scOK(sc) = sc != nil && sc.logger != nil && (sc.debug ==> sc.c != nil)
+
+//@ func (*Stream).hasMoreToSend
+//@ props C06
+//@ requires recv: s != nil
+//@ pure
+//@ ensures def: r0 <==> (len(s.pendingData) > 0 || s.bodyStream != nil)
+
+//@ func (*serverConn).write
+//@ props C06 C17
+//@ requires args: sc != nil && fr != nil && fr.fr != nil
+//@ opt noframe=true
+//@ modifies family(Data), family(Headers), family(Priority), family(RstStream), family(Settings), family(PushPromise), family(Ping), family(GoAway), family(WindowUpdate), family(Continuation)
+
+//@ func (*serverConn).writeReset
+//@ props C09 C10
+//@ requires recv: scOK(sc)
+//@ opt noframe=true
+
+//@ func (*serverConn).closeBodyStream
+//@ props C06
+//@ requires args: sc != nil && strm != nil
+//@ modifies strm.bodyStream
+//@ opt noframe=true
+//@ ensures closed: strm.bodyStream == nil
+
+//@ func (*serverConn).refillPending
+//@ props C06
+//@ requires args: sc != nil && strm != nil && strm.bodyStream != nil
+//@ # ASSUMPTION: the int64 count of body octets read does not overflow
+//@ opt noovf=true
+//@ modifies strm.bodyBuf, strm.pendingData, strm.bodyRead, strm.pendingEnd, anybytes()
+//@ opt noframe=true
+//@ # a chunk is at most one maximum-size DATA frame
+//@ ensures chunk: len(strm.pendingData) <= 16384 || sameslice(strm.pendingData, old(strm.pendingData))
+//@ ensures stream: strm.bodyStream == old(strm.bodyStream)
+
+//@ func io.Reader.Read
+//@ trusted
+//@ modifies contents(p)
+//@ ensures n: n >= 0 && n <= len(p)
+
+//@ func (*serverConn).sendData
+//@ props C06 C01 C18
+//@ requires args: scOK(sc) && strm != nil
+//@ requires windows: strm.window <= 2147483647 && sc.clientWindow <= 2147483647 && strm.window >= -2147483648 && sc.clientWindow >= -2147483648
+//@ opt noframe=true
+//@ modifies strm.pendingData, strm.window, sc.clientWindow, strm.bodyBuf, strm.bodyRead, strm.pendingEnd, strm.bodyStream, anybytes(),
+//@ |   family(Data), family(Headers), family(Priority), family(RstStream), family(Settings), family(PushPromise), family(Ping), family(GoAway), family(WindowUpdate), family(Continuation)
+//@ ghost sent = 0
+//@ ghost ended = false
+//@ # both windows go down by exactly what has been sent; nothing is sent on a closed window
+//@ loop 0: invariant ledger: strm.window == old(strm.window) - sent && sc.clientWindow == old(sc.clientWindow) - sent && sent >= 0
+//@ loop 0: invariant ptrs: scOK(sc) && strm != nil
+//@ # every DATA frame fits the stream window, the connection window and the smallest legal SETTINGS_MAX_FRAME_SIZE
+//@ assert@call:(*serverConn).write#1 fits: step >= 1 && step <= strm.window && step <= sc.clientWindow && step <= 16384 && len(chunk) == step
+//@ # END_STREAM goes out exactly once: nothing is sent after it ...
+//@ assert@call:(*serverConn).write#1 once: !ended
+//@ loop 0: invariant notended: !ended || (len(strm.pendingData) == 0 && strm.pendingEnd)
+//@ ghost@call:(*serverConn).write#1 sent = sent + step
+//@ ghost@call:(*serverConn).write#1 ended = ended || end
+//@ ensures ledger: strm.window == old(strm.window) - sent && sc.clientWindow == old(sc.clientWindow) - sent && sent >= 0
+//@ # false means blocked: a window is closed and data is left (the loop resumes it when a window opens)
+//@ ensures blocked: !r0 ==> (strm.window <= 0 || sc.clientWindow <= 0) && len(strm.pendingData) > 0
+//@ ensures done: r0 ==> strm.bodyStream == nil
+//@ # ... and a response that was finished without a reset did carry it
+//@ ensures endsent: r0 && called((*serverConn).writeReset) == 0 && (old(strm.pendingEnd) || old(strm.bodyStream) != nil) ==> ended
